@@ -19,6 +19,9 @@ def run_property(prop, tier, root, write=True, only_key=None, selftest=True):
   mod = importlib.import_module('mmsa.props.%s' % prop.lower())
   repo = core.Repo(root)
   seed = int(os.environ.get('VERIF_SEED', '0') or 0)
+  from mmsa import cfg as _cfg
+  for k_ in _cfg.STATS:
+    _cfg.STATS[k_] = 0
   rep = report.Report(prop, tier, repo, seed)
   try:
     mod.run(repo, rep, tier)
